@@ -557,7 +557,7 @@ pub fn run(thorough: bool, seed: u64, driver: &str, rep: &mut Report) {
                 check_relative_output("distance", &args, &r, &dir, false, &format!("{ctx0}\nphylotree distance FILE {picks:?}"), rep);
             }
             // the working directory holds a FILE spelled exactly like one of the tips (a list of other names): a tip argument is a name
-            if ti % 6 == 0 && picks[0].chars().all(|c| c.is_alphanumeric() || c == '_') {
+            if ti % 3 == 0 && ti % 6 != 0 && picks[0].chars().all(|c| c.is_alphanumeric() || c == '_') {
                 let decoy = format!("{dir}/{}", picks[0]);
                 if std::fs::write(&decoy, leaves.join("\n")).is_ok() {
                     let o = Command::new(bin()).args(&args).current_dir(&dir).output();
